@@ -289,6 +289,23 @@ def cases(seed):
     out.append(Case("train_policy_actor_critic", b_pv, pv_data, lambda m, obs, act, ret, gd, nobs: actor_critic.train_policy_actor_critic(m[0], m[1], 1, m[2], obs, act, nobs, ret, gd, 0.9), {0, 1}))
     out.append(Case("train_policy_a2c", b_pv, pv_data, lambda m, obs, act, ret, gd, nobs: a2c.train_policy_a2c(m[0], m[1], 1, obs, act, ret), {0, 1}))
 
+    # --- PETS ensemble
+    from rl_blox.blox import probabilistic_ensemble as pe
+
+    def b_ens(s):
+        m = pe.GaussianMLPEnsemble(2, False, 2, 1, [2], "relu", nnx.Rngs(s))
+        other = pe.GaussianMLPEnsemble(2, False, 2, 1, [2], "relu", nnx.Rngs(s + 1))
+        return (m, sgd(m), other), ["ensemble", "ensemble_optimizer", "other_ensemble"]
+    out.append(Case("probabilistic_ensemble.train_epoch", b_ens, lambda r: (f32(r.normal(size=(3, 2))), f32(r.normal(size=(3, 1))), jnp.asarray(r.integers(0, 3, size=(1, 2, 2)), dtype=jnp.int32)),
+                    lambda m, X, Y, idx: pe.train_epoch(m[0], m[1], X, Y, idx), {0, 1}))
+
+    def call_train_ensemble(m, X, Y, key):
+        from props.e2common import overlay
+        with overlay(pe, bootstrap=lambda n_ens, ts, n, k: jnp.tile(jnp.arange(n), (n_ens, 1))):
+            pe.train_ensemble(m[0], m[1], 1.0, X, Y, 1, 2, key)
+    out.append(Case("probabilistic_ensemble.train_ensemble(update_dynamics_model)", b_ens, lambda r: (f32(r.normal(size=(4, 2))), f32(r.normal(size=(4, 1))), jax.random.key(2)),
+                    call_train_ensemble, {0, 1}))
+
     # --- merely evaluating a loss or acting changes nothing
     out.append(Case("evaluate:td3_loss", b_td3, lambda r: _batch(r, False) + (0.9, f32(r.normal(size=(2, A)))),
                     lambda m, *d: losses.td3_loss(m[0], m[2], d[6], d[:5], d[5]), set()))
